@@ -26,28 +26,39 @@ def enumerate_shapes(two=True, timeout=900):
     return [x for x in r.printed if "shape" in x], r
 
 
-def _units(directed, n, k0=0):
+def _with_id(text, ident):
+    """every descriptor of the text gets the id (the ids of a molecule are all equal, so what may bond stays the same)"""
+    if ident < 0:
+        return text
+    for sym in "<>$":
+        text = text.replace("[" + sym + "]", "[" + sym + str(ident) + "]")
+    return text
+
+
+def _units(directed, n, k0=0, ident=-1):
     d = [("[<]CC[>]", "[$]CC[$]"), ("[<]C(C)O[>]", "[$]C(C)O[$]"), ("[<]CC([>])C", "[$]CC([$])C")]
-    return [Token.of(d[(k0 + i) % 3][0 if directed else 1]) for i in range(n)]
+    return [Token.of(_with_id(d[(k0 + i) % 3][0 if directed else 1], ident)) for i in range(n)]
 
 
-def _ends(directed, n):
+def _ends(directed, n, ident=-1):
     d = [("[<][H]", "[$][H]"), ("[>]F", "[$]F")]
-    return [Token.of(d[i % 2][0 if directed else 1]) for i in range(n)]
+    return [Token.of(_with_id(d[i % 2][0 if directed else 1], ident)) for i in range(n)]
 
 
 def concretise(sh, k=0):
     """shape export -> Mol AST (with implicit descriptors marked) ; k cycles distributions / texts."""
     s = sh["shape"]
     elems = []
+    # ids: none in half of the concretisations, else 0 (falsy), 1 or 12 - on every descriptor of the molecule, written or inserted
+    ident = [-1, 0, -1, 1, -1, 0, -1, 12][k % 8]
 
     def tok(form, text, lead_sym, trail_sym):
         items = []
         if lead_sym:
-            items.append(Desc(lead_sym, -1, None, None, form == "implicit"))
+            items.append(Desc(lead_sym, ident, None, None, form == "implicit"))
         items.append(text)
         if trail_sym:
-            items.append(Desc(trail_sym, -1, Fraction(0) if form == "implicit" else None, None, form == "implicit"))
+            items.append(Desc(trail_sym, ident, Fraction(0) if form == "implicit" else None, None, form == "implicit"))
         return Token(items)
 
     def sto(l, r, nrep, nend, j):
@@ -56,7 +67,8 @@ def concretise(sh, k=0):
         # terminal descriptors carry a weight in some concretisations (a weight on a terminal changes nothing but the text)
         wl = [None, None, Fraction(1, 2), None, None, Fraction(3)][(k + j) % 6] if l else None
         wr = [None, Fraction(2), None, None, Fraction(1, 4), None][(k + j) % 6] if r else None
-        return Sto(Desc(l, -1, wl), _units(directed, nrep, j), _ends(directed, nend), Desc(r, -1, wr), Dist(dist[0], list(dist[1])) if dist else None)
+        return Sto(Desc(l, ident if l else -1, wl), _units(directed, nrep, j, ident), _ends(directed, nend, ident), Desc(r, ident if r else -1, wr),
+                   Dist(dist[0], list(dist[1])) if dist else None)
 
     if s["prefix"] != "absent":
         elems.append(tok(s["prefix"], ["OC", "C", "NCC"][k % 3], None, s["left"]))
